@@ -72,6 +72,14 @@ static Db* create(const Db* cur, const Sx& o) {
     case 54: { const DbGrid* g = dynamic_cast<const DbGrid*>(cur); if (g == nullptr) return nullptr;   // not a grid: nothing happens
                VectorVectorInt lim; for (auto& x : o[4].l) lim.push_back({(int) x[0].i(), (int) x[1].i()});
                return DbGrid::createSubGrid(g, lim, o[5].b()); }
+    case 55: { DbGrid* g = const_cast<DbGrid*>(dynamic_cast<const DbGrid*>(cur)); if (g == nullptr) return nullptr;
+               int before = (o[7].b() ? 1 : 0) + g->getNDim();
+               DbGrid* n = o[1].b() ? DbGrid::createRefine(g, ints(o[5]), o[6].b(), o[7].b()) : DbGrid::createCoarse(g, ints(o[5]), o[6].b(), o[7].b());
+               if (n == nullptr) throw std::runtime_error("coarse/refine returned null");
+               // the migrated values (interpolation) are abstracted: overwritten by the marker the model uses
+               for (int c = before; c < n->getColumnNumber(); c++)
+                 n->setColumnByColIdx(VectorDouble(n->getSampleNumber(), 999999999.), c, false);
+               return n; }
   }
   return nullptr;
 }
@@ -166,7 +174,8 @@ static std::string observe(const Db* db) {
 }
 
 // directed tests (no model): (2 refine delete_middle) post-condition of createCoarse/createRefine on the table side;
-// (3) designation by a name that is not a valid regular expression; (4) addColumns(useSel) with no active sample
+// (3) designation by a name that is not a valid regular expression (throws std::regex_error; informative);
+// (4) addColumns(useSel) with no active sample, (5) addColumnsByVVD with fewer values than vectors on an empty Db
 static std::string roles(const Db* db, bool skipRank) {
   std::string s = "("; bool first = true;
   for (int c = 0; c < db->getColumnNumber(); c++) {
@@ -192,6 +201,7 @@ static std::string directed(const Sx& c) {
   std::string out = "(1)";
   if (kind == 3) { d->addColumnsByConstant(1, 0., "a", ELoc::UNKNOWN, 0, 2); out = "(" + pint(d->getColIdx("a[")) + ")"; }
   if (kind == 4) { d->addColumnsByConstant(1, 0., "s", ELoc::SEL, 0, 2); d->addColumns({1.}, "b", ELoc::UNKNOWN, 0, true); out = "(" + pint(d->getColumnNumber()) + ")"; }
+  if (kind == 5) { d->addColumnsByVVD({{1.}, {}}, "p", ELoc::UNKNOWN); out = "(" + pint(d->getColumnNumber()) + ")"; }
   delete d; return out;
 }
 static std::string run(const Sx& c) {
@@ -202,7 +212,7 @@ static std::string run(const Sx& c) {
   for (auto& o : c[1].l) {
     if (o[0].i() >= 50) {
       Db* n = create(db, o);
-      if (n == nullptr && o[0].i() != 54) throw std::runtime_error("creator returned null");
+      if (n == nullptr && o[0].i() < 54) throw std::runtime_error("creator returned null");
       if (n != nullptr) { delete db; db = n; }
     }
     else apply(db, o);
